@@ -28,6 +28,27 @@ type Case struct {
 	Reply      string // OFFER | ACK | NAK
 	Bound, Oob int
 	HLen       int
+	Opt82      string `json:",omitempty"` // "" | "typical" | "all-empty" | "all-one-byte"
+}
+
+// opt82 builds relay-agent-information variants: whatever sub-options a relay adds, the
+// reply of a relayed request goes to giaddr on the server port.
+func opt82(kind string) []byte {
+	var b []byte
+	switch kind {
+	case "typical":
+		b = []byte{1, 4, 'c', 'i', 'r', 'c', 2, 2, 'r', 'i'}
+	case "all-empty":
+		for c := 1; c <= 60; c++ {
+			b = append(b, byte(c), 0)
+		}
+	case "all-one-byte":
+		for c := 1; c <= 40; c++ {
+			b = append(b, byte(c), 1, byte(c))
+		}
+		b = append(b, 151, 0, 152, 0)
+	}
+	return b
 }
 
 func ip4(s string) [4]byte {
@@ -59,6 +80,9 @@ func request(c Case) []byte {
 		mt = 3
 	}
 	p.Opts = []pkt.Opt4{{Code: 53, Data: []byte{mt}}}
+	if c.Opt82 != "" {
+		p.Opts = append(p.Opts, pkt.Opt4{Code: 82, Data: opt82(c.Opt82)})
+	}
 	return p.Bytes()
 }
 
@@ -204,7 +228,7 @@ func run(r *ev.Run) {
 								if bound != 0 && oob != 0 && oob != bound {
 									continue // a bound socket only receives on its interface
 								}
-								c := Case{gi, ci, yi, bc, rep, bound, oob, 6}
+								c := Case{gi, ci, yi, bc, rep, bound, oob, 6, ""}
 								if bound == 0 && oob == 0 {
 									// only where the answer is defined: routable destination
 									z := func(s string) bool { return s == "0.0.0.0" }
@@ -214,6 +238,12 @@ func run(r *ev.Run) {
 									}
 								}
 								eval(r, c)
+								if gi != "0.0.0.0" || ci == "0.0.0.0" {
+									for _, k := range []string{"typical", "all-empty", "all-one-byte"} {
+										c.Opt82 = k
+										eval(r, c)
+									}
+								}
 							}
 						}
 					}
